@@ -39,6 +39,8 @@ class BioModels(M.Models):
         self.decl("feats_cat", [FEATS, FEATS], FEATS)
         self.decl("feats_flip", [FEATS, INT], FEATS)
         self.decl("feats_empty", [], FEATS)
+        self.decl("strided_text", [STR, INT, INT, INT], STR)      # D-REC-SLICE: text[lo:hi:step]
+        self.decl("strided_elems", [ELEMS, INT, INT, INT], ELEMS)
         self.decl("feats_snoc_source", [FEATS, INT, STR], FEATS)  # table, length covered, plasmid id
         self.decl("dbx_empty", [], DBX)
         self.decl("dbx_union", [DBX, DBX], DBX)
@@ -139,6 +141,8 @@ def km_rec_getitem(ex, st, fr, self, args, kwargs):
     n = tm.slen(data)
     if not isinstance(idx, VSlice):
         raise Unsupported("record[int]")
+    if idx.step is not None and not (isinstance(idx.step, VT) and tm.is_const(idx.step.t) and tm.cval(idx.step.t) == 1):
+        return km_rec_getitem_stepped(ex, st, fr, self, idx)
     lo, hi = ex.slice_terms(idx)
     a = tm.I(0) if lo is None else tm.pyidx(lo, n)
     b = n if hi is None else tm.pyidx(hi, n)
@@ -166,6 +170,40 @@ def km_rec_getitem(ex, st, fr, self, args, kwargs):
 
 FEATS_ = FEATS
 DBX_ = DBX
+
+
+def km_rec_getitem_stepped(ex, st, fr, self, idx):
+    """D-REC-SLICE, stepped: record[lo:hi:step] (int bounds, step != 0) is a record of the same class holding
+    text[lo:hi:step] and the per-letter annotations sliced alike, no feature, no cross-reference, and of the annotations
+    only the molecule type; a zero step is refused with ValueError"""
+    if not all(isinstance(x, VT) and x.t.sort == INT for x in (idx.lo, idx.hi, idx.step)):
+        raise Unsupported("stepped slice with a bound that is not an int")
+    lo, hi, step = idx.lo.t, idx.hi.t, idx.step.t
+    data = ex.models.rec_text(st, self)
+    outs = []
+    for (s2, zero) in ex.branch(st, tm.eq(step, 0)):
+        if zero:
+            outs += ex.raise_(s2, "ValueError", VT(tm.S("slice step cannot be zero")))
+            continue
+        s2 = s2.fork()
+        o = ex.models.mk_record(s2, self.kind, tm.app("strided_text", STR, data, lo, hi, step))
+        for k in ("id", "name", "description"):
+            s2.set_inplace(o, k, s2.get(self, k))
+        s2.set_inplace(o, "features", VT(tm.app("feats_empty", FEATS_), "list"))
+        s2.set_inplace(o, "dbxrefs", VT(tm.app("dbx_empty", DBX_), "list"))
+        ann = s2.get(self, "annotations")
+        items = {}
+        if isinstance(ann, VDict) and "molecule_type" in s2.get(ann, "items"):
+            items["molecule_type"] = s2.get(ann, "items")["molecule_type"]
+        d = VDict(M.new_oid())
+        s2.set_inplace(d, "items", items)
+        s2.set_inplace(o, "annotations", d)
+        la = s2.get(self, "letter_annotations")
+        o2 = VObj("LetAnn")
+        s2.set_inplace(o2, "rep", VT(tm.app("strided_elems", ELEMS, s2.get(la, "rep").t, lo, hi, step), "list"))
+        s2.set_inplace(o, "letter_annotations", o2)
+        outs.append((s2, "ok", o))
+    return outs
 
 
 def km_rec_add(ex, st, fr, self, args, kwargs):
@@ -494,7 +532,14 @@ def merge_alts(ex, st, alts):
     return st, p
 
 
+def km_part_len(ex, st, fr, self, args, kwargs):
+    """D-LOC: the length of a simple location is end - start"""
+    ex.used_models.add("D-LOC")
+    return [(st, "ok", VT(tm.sub(st.get(self, "end").t, st.get(self, "start").t)))]
+
+
 M.KIND_METHODS.update({
+    ("FeatureLocation", "__len__"): km_part_len,
     ("Loc", "__add__"): km_loc_add,
     ("FeatureLocation", "__add__"): km_loc_add,
 })
@@ -527,6 +572,32 @@ def quals_term(ex, st, q):
                 raise Unsupported("qualifier value %r" % (v,))
         return tm.app("quals:" + ",".join(keys), QUALS, *args)
     raise Unsupported("qualifiers %r" % (q,))
+
+
+def quals_get(qt, key):
+    """the value filed under `key` in a qualifiers term, when the term shows it (else None)"""
+    if qt.op == "app" and isinstance(qt.args[0], str):
+        if qt.args[0].startswith("quals:"):
+            keys = qt.args[0][len("quals:"):].split(",")
+            if key in keys:
+                return qt.args[1 + keys.index(key)]
+        if qt.args[0] == "quals_naming" and key == "plasmid":
+            return qt.args[1]
+    return None
+
+
+def quals_naming(sid):
+    """some qualifiers whose `plasmid` entry is sid; everything else about them is left open"""
+    return tm.app("quals_naming", QUALS, sid, tm.V("quals.rest!%d" % next(tm._fresh), INT))
+
+
+def last_feature(ft):
+    """(table before, type, start, end, strand, qualifiers) when the table term is shown as `... + [feature]`"""
+    if ft.op == "app" and ft.args[0] == "feats_snoc":
+        f = ft.args[2]
+        if f.op == "app" and f.args[0] == "feat":
+            return (ft.args[1],) + tuple(f.args[1:6])
+    return None
 
 
 def feature_term(ex, st, f):
